@@ -4,7 +4,7 @@ from __future__ import annotations
 import ast
 from typing import Dict, List, Optional, Set, Tuple
 
-from ..core import Collector, guarded, norm, Unrecognised, AnchorMissing
+from ..core import Collector, guarded, acquire_grammar, norm, Unrecognised, AnchorMissing
 from ..grammar import G, walk, top_shape
 from ..pyindex import walk_no_nested, access_path, root_name, FuncInfo
 from .common import get_cg, CACHE_DECORATORS
@@ -178,7 +178,7 @@ def shared_writes(idx, modname: str, tree: ast.AST, module_syms: Dict[str, str],
 
 def run(ctx, col: Collector):
     idx = ctx.idx
-    gm = ctx.grammar
+    gm = acquire_grammar(ctx, col, 'C11-grammar')
 
     # ---------------------------------------------------------------- C11-copy
     def copies():
